@@ -6,7 +6,7 @@ will read.  The stream `data` is the whole sequence of bytes the peer ever sends
 of them have been consumed -- so how the bytes are split into packets is invisible by construction.
 """
 from bridge_env.network_bridge.socket_interface import MessageInterface
-from pyvc.dsl import (Bool, Byte1, Bytes, Const, DecodedStr, EmptyList, Ext, Int, IntElem, Obj, Seq,
+from pyvc.dsl import (Bool, Byte1, Bytes, Const, DecodedStr, EmptyList, Ext, Int, IntElem, Obj, Seq, TraceList,
                       contract, lemma, LoopContract)
 from pyvc.speclib import (conj, disj, forall_int, iff, implies, ite, new_object, new_socket, same,
                           seq_get, seq_len, sock_data, sock_pos, sock_sent, utf8)
@@ -14,8 +14,8 @@ from pyvc.speclib import (conj, disj, forall_int, iff, implies, ite, new_object,
 P = ['C19']
 CR, LF = 13, 10
 
-SocketShape = Ext('socket', dict(data=Seq(IntElem()), pos=Int(0), sent=EmptyList(),
-                                 closed=Const(False)))
+SocketShape = Ext('socket', dict(data=Seq(IntElem()), pos=Int(0), sent=TraceList(),
+                                 closed=Bool()))
 MIShape = Obj(MessageInterface, dict(connection_socket=SocketShape))
 
 
@@ -86,7 +86,7 @@ class _receive:
         bad_terminator = conj(k >= p0, k < seq_len(d), seq_get(d, k) == CR, no_cr(d, p0, k),
                               disj(k + 1 >= seq_len(d), seq_get(d, k + 1) != LF))
         closed_before_cr = conj(p == seq_len(d), no_cr(d, p0, p))
-        return disj(bad_terminator, closed_before_cr)
+        return conj(p0 <= p, p <= seq_len(d), disj(bad_terminator, closed_before_cr))
 
 
 @contract('bridge_env.network_bridge.socket_interface.MessageInterface.send_message',
